@@ -281,7 +281,7 @@ func drawProgram(t *rapid.T) program {
 }
 
 func TestRandomSchedules(t *testing.T) {
-	hx.Check(t, hx.N{Quick: 6000, Thorough: 60000}, func(t *rapid.T, c *hx.Case) {
+	hx.Check(t, hx.N{Quick: 30000, Thorough: 480000}, func(t *rapid.T, c *hx.Case) {
 		p := drawProgram(t)
 		iv := uint64(p.n) * bl
 		c.Op("program n=%d phase=%d pre=%d preGap=%d tasks=%v", p.n, p.phase, p.pre, p.preGap, p.tasks)
@@ -352,7 +352,7 @@ func TestSystematicSchedules(t *testing.T) {
 
 // TestStress: real goroutines, real scheduler; only clause (a) at the end and termination.
 func TestStress(t *testing.T) {
-	hx.Check(t, hx.N{Quick: 30, Thorough: 300}, func(t *rapid.T, c *hx.Case) {
+	hx.Check(t, hx.N{Quick: 150, Thorough: 2400}, func(t *rapid.T, c *hx.Case) {
 		old := runtime.GOMAXPROCS(16)
 		defer runtime.GOMAXPROCS(old)
 		n := uint32(rapid.IntRange(1, 4).Draw(t, "n"))
